@@ -32,6 +32,8 @@ type psWorld struct {
 	subs map[int]<-chan int
 	ret  map[int]chan struct{}
 	tmo  bool
+
+	unsubDone chan struct{}
 }
 
 func (w *psWorld) log(e M) {
@@ -165,6 +167,31 @@ func drivePubSub(plan []M, out *Out, _ []string) {
 					}
 				case <-time.After(400 * time.Millisecond):
 					w.log(M{"ev": "recv_none", "c": c})
+				}
+			case "unsub_async":
+				// Unsub on its own goroutine (it has to wait for a Sync publish that holds the read lock)
+				c := num(st, "c")
+				ud := make(chan struct{})
+				w.unsubDone = ud
+				ch := w.subs[c]
+				go func() {
+					w.log(M{"ev": "unsub_start", "c": c})
+					err := w.ps.Unsub(ch)
+					es := ""
+					if err == chans.ErrAlreadyUnsubscribed {
+						es = "already"
+					} else if err != nil {
+						es = err.Error()
+					}
+					w.log(M{"ev": "unsub_ret", "c": c, "err": es})
+					close(ud)
+				}()
+				time.Sleep(2 * time.Millisecond)
+			case "wait_unsub":
+				select {
+				case <-w.unsubDone:
+				case <-time.After(3 * time.Second):
+					w.log(M{"ev": "stuck", "what": "Unsub did not return"})
 				}
 			case "unsub":
 				c := num(st, "c")
